@@ -138,7 +138,7 @@ func (e *ExecutorEngine) startSubscription(ctx context.Context, id string, execu
 
 	defer e.bufferPool.Put(buf)
 
-	e.executeSubscription(buf, id, executor, eventHandler)
+	e.executeSubscription(ctx, buf, id, executor, eventHandler)
 
 	for {
 		buf.Reset()
@@ -146,14 +146,17 @@ func (e *ExecutorEngine) startSubscription(ctx context.Context, id string, execu
 		case <-ctx.Done():
 			return
 		case <-time.After(e.subscriptionUpdateInterval):
-			e.executeSubscription(buf, id, executor, eventHandler)
+			e.executeSubscription(ctx, buf, id, executor, eventHandler)
 		}
 	}
 
 }
 
-func (e *ExecutorEngine) executeSubscription(buf *graphql.EngineResultWriter, id string, executor Executor, eventHandler EventHandler) {
+func (e *ExecutorEngine) executeSubscription(ctx context.Context, buf *graphql.EngineResultWriter, id string, executor Executor, eventHandler EventHandler) {
 	buf.SetFlushCallback(func(data []byte) {
+		if ctx.Err() != nil {
+			return // stopped: nothing may be sent for this id anymore
+		}
 		e.logger.Debug("subscription.Handle.executeSubscription()",
 			abstractlogger.ByteString("execution_result", data),
 		)
@@ -162,6 +165,9 @@ func (e *ExecutorEngine) executeSubscription(buf *graphql.EngineResultWriter, id
 	defer buf.SetFlushCallback(nil)
 
 	err := executor.Execute(buf)
+	if ctx.Err() != nil {
+		return // stopped while executing: the id is completed already and may be in use again
+	}
 	if err != nil {
 		e.logger.Error("subscription.Handle.executeSubscription()",
 			abstractlogger.Error(err),
@@ -182,7 +188,9 @@ func (e *ExecutorEngine) executeSubscription(buf *graphql.EngineResultWriter, id
 
 func (e *ExecutorEngine) handleNonSubscriptionOperation(ctx context.Context, id string, executor Executor, eventHandler EventHandler) {
 	defer func() {
-		e.subCancellations.Cancel(id)
+		if ctx.Err() == nil {
+			e.subCancellations.Cancel(id)
+		}
 		err := e.executorPool.Put(executor)
 		if err != nil {
 			e.logger.Error("subscription.Handle.handleNonSubscriptionOperation()",
@@ -198,6 +206,9 @@ func (e *ExecutorEngine) handleNonSubscriptionOperation(ctx context.Context, id 
 	defer e.bufferPool.Put(buf)
 
 	err := executor.Execute(buf)
+	if ctx.Err() != nil {
+		return // stopped while executing: the id is completed already and may be in use again
+	}
 	if err != nil {
 		e.logger.Error("subscription.Handle.handleNonSubscriptionOperation()",
 			abstractlogger.Error(err),
